@@ -123,7 +123,7 @@ func specialCases() []Case {
 	// (h) re-entrancy: a host function evaluates the SAME compiled expression again while it is
 	// running (no goroutine involved); every back end must behave as if each evaluation had its
 	// own machine state
-	cs = append(cs, reentrantCase())
+	cs = append(cs, reentrantCases()...)
 
 	// (d) dynamic call of a lazy function value: run in a child process (the VM passes raw
 	// arguments where thunks are expected, which can crash the process)
@@ -246,10 +246,10 @@ func dynamicCalleeCase() Case {
 // reentrantCase: `if(n <= 1, 1, n * sub(n - 1))` where the host function `sub(k)` evaluates the
 // very same compiled closure with n = k: factorial by re-entering the compiled expression; also a
 // lazy variant in which the re-entry happens inside a forced thunk.
-func reentrantCase() Case {
+func reentrantCases() []Case {
 	c := Case{Human: "re-entrant evaluation: a host function evaluates the same compiled expression again", Tags: []string{"special:reentrant"}, Nontriv: true, Want: "ok"}
 	if guardBegin(c.Human) {
-		return crashCase(c.Human)
+		return []Case{crashCase(c.Human)}
 	}
 	defer guardEnd()
 	programs := []struct {
@@ -318,9 +318,20 @@ func reentrantCase() Case {
 	}
 	if len(bad) > 0 {
 		c.Want = "differs"
-		c.Oracle, c.OracleID = "a compiled expression is not re-entrant: "+strings.Join(bad, " | "), "backend-divergence"
+		c.Oracle, c.OracleID = "a compiled expression is not re-entrant: "+strings.Join(bad, " | "), "backend-divergence-reentrant"
 	}
-	return c
+	out := []Case{c}
+	// the same observation as an internal fault when the interleaved evaluation ends in a Go panic
+	// (an accepted program in a conforming environment must not fail that way)
+	f := Case{Human: c.Human + " (faults)", Tags: []string{"special:reentrant"}, Nontriv: true, Want: "ok"}
+	for _, b := range bad {
+		if strings.Contains(b, "panic: ") {
+			f.Want = "differs"
+			f.Oracle, f.OracleID = "internal fault during an interleaved evaluation of an accepted program: "+b, "internal-fault"
+			break
+		}
+	}
+	return append(out, f)
 }
 
 // facadeSugarCases: pairs (sugared text, explicit call) evaluated through yae.Expr.Compile under
